@@ -6,7 +6,7 @@
    over a script with push/pop frames; [spec_bytes] the bytes the protocol prescribes; [run_dop]/[run_dops] the getters. *)
 From Coq Require Import List ZArith.
 From SV Require Import Wire.Bytes Wire.Varint Wire.Crc Wire.Prim Wire.PushPop Wire.CorrPrim
-  Wire.VarintProofs Wire.PrimProofs Wire.PrimThms.
+  Wire.VarintProofs Wire.PrimProofs Wire.PrimThms Wire.Records Wire.RecordsProofs Wire.BatchProofs.
 Import ListNotations.
 Open Scope Z_scope.
 
@@ -64,3 +64,41 @@ Theorem c09_length_crc_spec : forall k body rest bs, encode (EFrame k body rest)
   exists b r, spec_bytes body = inr b /\ spec_bytes rest = inr r /\ bs = frame_field k b ++ b ++ r.
 Proof. exact frame_spec. Qed.
 Print Assumptions c09_length_crc_spec.
+
+(* ============================ records layer ============================ *)
+(* Record: decoding the encoder's bytes (anything before, anything after) gives the record back, the timestamp delta
+   truncated to whole milliseconds and a nil header slice as an empty one ([norm_record]); exactly the encoded
+   length is consumed. *)
+Theorem c09_records_roundtrip_record : forall r d rest,
+  record_ok r -> at_ d (record_bytes r ++ rest) -> len (raw d) < MAXLEN ->
+  okm (record_decode d) (norm_record r) d (len (record_bytes r)) (PTR * len (olist (r_headers r))).
+Proof. exact record_decode_rt. Qed.
+Print Assumptions c09_records_roundtrip_record.
+
+Theorem c09_records_bytes : forall rs, spec_bytes (records_ops rs) = inr (records_bytes rs).
+Proof. exact spec_records_ops. Qed.
+
+Theorem c09_records_roundtrip_array : forall rs d rest,
+  Forall record_ok rs -> at_ d (records_bytes rs ++ rest) -> len (raw d) < MAXLEN ->
+  okm (records_decode (length rs) d) (map norm_record rs) d (len (records_bytes rs)) (records_cost rs).
+Proof. exact records_decode_rt. Qed.
+Print Assumptions c09_records_roundtrip_array.
+
+(* RecordBatch (magic 2), every codec: under the hypothesis that the codec library decompresses what it compressed,
+   decoding the batch's bytes gives the batch back (timestamps truncated to milliseconds, records normalised, not
+   partial), consuming exactly its bytes and leaving the decoder's stack as it was. *)
+Theorem c09_records_roundtrip : forall (compress decompress : Z -> list Z -> option (list Z)),
+  (forall c x y, compress c x = Some y -> decompress c y = Some x) ->
+  forall b ops bs, batch_ok b -> batch_ops compress b = inr ops -> spec_bytes ops = inr bs ->
+  forall d rest, at_ d (bs ++ rest) -> len (raw d) < MAXLEN ->
+  exists d', batch_decode decompress d = Ok (norm_batch b) d' /\ raw d' = raw d /\ off d' = off d + len bs /\ stack d' = stack d.
+Proof. exact batch_roundtrip. Qed.
+Print Assumptions c09_records_roundtrip.
+
+(* Re-encoding the decoded value writes identical bytes (the script of put-calls is the same). *)
+Theorem c09_records_reencode_record : forall r, record_ops (norm_record r) = record_ops r.
+Proof. exact record_reencode. Qed.
+Theorem c09_records_reencode : forall (compress : Z -> list Z -> option (list Z)) b,
+  batch_ok b -> batch_ops compress (norm_batch b) = batch_ops compress b.
+Proof. exact batch_reencode. Qed.
+Print Assumptions c09_records_reencode.
